@@ -96,10 +96,23 @@ def _shared_patterns(fn, rd, key, job):
             return "unknown"
     else:
         key2 = key
-    src = norm(it)
-    tests = [norm(f) for f in filters]
-    job_side = src == f"{job}.usage_patterns" or any(t == f"{key2} in {job}.usage_patterns" for t in tests)
-    net_side = src == "self.usage_patterns" or any(t == f"{key2} in self.usage_patterns" for t in tests)
+    from ..astutil import enorm, path_conditions, positive_atoms
+    src = enorm(it, fn)
+    tests = [enorm(f, fn) for f in filters]
+    # guards on the path to the read: `if up in self.usage_patterns:` / `if up not in …: continue`
+    stmt = rd
+    while stmt is not None and not isinstance(stmt, ast.stmt):
+        stmt = getattr(stmt, "_parent", None)
+    if stmt is not None:
+        true, false = positive_atoms(path_conditions(stmt, fn))
+        tests += [enorm(t, fn) for t in true]
+        for t in false:
+            if isinstance(t, ast.Compare) and len(t.ops) == 1 and isinstance(t.ops[0], ast.NotIn):
+                tests.append(f"{enorm(t.left, fn)} in {enorm(t.comparators[0], fn)}")
+    job_side = src == f"{job}.usage_patterns" or any(t == f"{key2} in {job}.usage_patterns" for t in tests) \
+        or (key != key2 and any(t == f"{key} in {job}.usage_patterns" for t in tests))
+    net_side = src == "self.usage_patterns" or any(t == f"{key2} in self.usage_patterns" for t in tests) \
+        or (key != key2 and any(t == f"{key} in self.usage_patterns" for t in tests))
     if job_side and net_side:
         return "ok"
     if src in (f"{job}.usage_patterns", "self.usage_patterns"):
@@ -616,13 +629,39 @@ def r_serv(E):
 
 # ---------------------------------------------------------------------------------------------- R-SEL / R-IDFLOW
 SEL_ALLOWED = {
-    "Storage.server": "guarded by `len(self.modeling_obj_containers) > 1 -> raise`: the collection is a singleton",
-    "optimize_mod_objs_computation_chain": "systems[0]: an object belongs to at most one system (R-GUARD)",
-    "ModelingUpdate.__init__": "systems[0]: an object belongs to at most one system (R-GUARD)",
-    "System.check_no_object_to_link_is_already_linked_to_another_system": "the one-system check itself",
     "ModelingObject.mod_objs_computation_chain": "work-list (x = wl[0]; wl = wl[1:]): every element is processed; the "
                                                  "order only permutes recomputations that R-ORDER shows independent",
 }
+SEL_SINGLETON_COLLECTIONS = {
+    "systems": "an object belongs to at most one system (the clause R-GUARD decides): `.systems` has at most one element",
+}
+
+
+def _singleton_guard(n, coll, fn):
+    """the path to the selection establishes len(coll) <= 1 (e.g. an earlier `if len(coll) > 1: raise`)"""
+    from ..astutil import enorm, path_conditions, positive_atoms
+    stmt = n
+    while stmt is not None and not isinstance(stmt, ast.stmt):
+        stmt = getattr(stmt, "_parent", None)
+    if stmt is None or fn is None:
+        return False
+    c = enorm(coll, fn)
+    true, false = positive_atoms(path_conditions(stmt, fn))
+    for atoms, pos in ((true, True), (false, False)):
+        for t in atoms:
+            if not (isinstance(t, ast.Compare) and len(t.ops) == 1):
+                continue
+            l, r, op = enorm(t.left, fn), enorm(t.comparators[0], fn), t.ops[0]
+            if l != f"len({c})" or not isinstance(t.comparators[0], ast.Constant):
+                continue
+            k = t.comparators[0].value
+            if pos and ((isinstance(op, ast.Eq) and k == 1) or (isinstance(op, ast.LtE) and k == 1)
+                        or (isinstance(op, ast.Lt) and k == 2)):
+                return True
+            if not pos and ((isinstance(op, ast.Gt) and k == 1) or (isinstance(op, ast.GtE) and k == 2)
+                            or (isinstance(op, ast.NotEq) and k == 1)):
+                return True
+    return False
 
 
 def _hash_ordered_props(pm):
@@ -701,16 +740,21 @@ def r_sel(E):
             while cls is not None and not isinstance(cls, ast.ClassDef):
                 cls = getattr(cls, "_parent", None)
             q = (f"{cls.name}.{fn.name}" if cls is not None else fn.name) if fn is not None else "<module>"
-            if q in SEL_ALLOWED:
-                ok = True
-                if q == "Storage.server":
-                    ok = any(isinstance(s, ast.If) and "len(self.modeling_obj_containers) > 1" in norm(s.test)
-                             and any(isinstance(x, ast.Raise) for x in s.body) for s in ast.walk(fn))
-                if ok:
-                    if len(res.samples) < 6:
-                        res.samples.append({"site": f"{rel}:{n.lineno} {q}", "selection": norm(n)[:60],
-                                            "singleton_because": SEL_ALLOWED[q]})
-                    continue
+            why = None
+            if _singleton_guard(n, coll, fn):
+                why = "the path to the selection establishes len(<collection>) <= 1 (guard that raises otherwise)"
+            else:
+                from ..astutil import expanded
+                src_coll = expanded(t, fn) if fn is not None else t
+                if isinstance(src_coll, ast.Attribute) and src_coll.attr in SEL_SINGLETON_COLLECTIONS:
+                    why = SEL_SINGLETON_COLLECTIONS[src_coll.attr]
+                elif q in SEL_ALLOWED:
+                    why = SEL_ALLOWED[q]
+            if why is not None:
+                if len(res.samples) < 6:
+                    res.samples.append({"site": f"{rel}:{n.lineno} {q}", "selection": norm(n)[:60],
+                                        "singleton_because": why})
+                continue
             res.findings.append(Finding(
                 "R-SEL", f"{q} :: {norm(n)[:80]}",
                 f"{q} picks an element by position from `{norm(coll)[:50]}`, whose order depends on hashing / creation "
@@ -751,13 +795,17 @@ def r_idflow(E):
             res.instances += 1
             q = fn.name if fn is not None else "<module>"
             bad = None
+            in_collection = False     # once the id sits in a list / tuple / comprehension, + and * act on the collection
             x, par = n, getattr(n, "_parent", None)
             while par is not None and not isinstance(par, (ast.stmt, ast.FunctionDef)):
+                if isinstance(par, (ast.List, ast.Tuple, ast.Set, ast.ListComp, ast.SetComp, ast.GeneratorExp)) or \
+                        (isinstance(par, ast.comprehension) and par.iter is not x):
+                    in_collection = True
                 if isinstance(par, ast.Compare) and any(isinstance(o, (ast.Lt, ast.Gt, ast.LtE, ast.GtE)) for o in par.ops):
                     bad = f"ordering comparison `{norm(par)[:60]}`"
-                if isinstance(par, ast.BinOp) and not isinstance(par.op, (ast.Add,)) :
+                if isinstance(par, ast.BinOp) and not isinstance(par.op, (ast.Add,)) and not in_collection:
                     bad = f"arithmetic `{norm(par)[:60]}`"
-                if isinstance(par, ast.BinOp) and isinstance(par.op, ast.Add) and not any(
+                if isinstance(par, ast.BinOp) and isinstance(par.op, ast.Add) and not in_collection and not any(
                         isinstance(s, (ast.JoinedStr, ast.Constant)) and (isinstance(s, ast.JoinedStr) or isinstance(s.value, str))
                         for s in (par.left, par.right)) and not any(isinstance(y, ast.List) for y in (par.left, par.right)):
                     if not (isinstance(par.left, ast.Attribute) or isinstance(par.right, ast.Attribute)):
